@@ -244,7 +244,8 @@ func (interp *Interpreter) gta(root *node, rpath, importPath, pkgName string) ([
 			}
 			// Try to import a binary package first, or a source package
 			var pkgName string
-			if packageName := path.Base(ipath); path.Dir(ipath) == packageName {
+			if packageName := path.Base(ipath); path.Dir(ipath) == packageName && interp.binPkg[packageName] != nil {
+				// A binary package can be imported by the key of its exports.
 				ipath = packageName
 			}
 			if pkg := interp.binPkg[ipath]; pkg != nil {
